@@ -193,6 +193,75 @@ def rewrite_assert_eq(text):
     return ''.join(out), c
 
 
+LABELLED_LET_RX = re.compile(r"\blet\s+(mut\s+)?(\w+)\s*(?::\s*([^=;{}]+?))?\s*=\s*('\w+)\s*:\s*\{")
+
+
+def rewrite_labelled_blocks(text):
+    """T10: Verus supports neither labelled blocks nor `break` with a value.
+        let v = 'L: { ...; break 'L e; ...; tail }      ==>
+        let v; 'L: loop /*vx:T10*/ decreases 0int { ...; { v = e; break 'L; } ...; v = tail; break 'L; }
+    a block that is left exactly where the original was left, with the same value (one-iteration loop, deferred
+    initialisation).  Returns (text, [labels rewritten])."""
+    from splice import block_tail
+    done = []
+    while True:
+        masked = mask(text)
+        m = LABELLED_LET_RX.search(masked)
+        if not m:
+            break
+        mutkw, var, ty, label = m.group(1) or '', m.group(2), m.group(3), m.group(4)
+        lb = m.end() - 1
+        close = match_close(masked, lb)
+        k = close + 1
+        while k < len(masked) and masked[k].isspace():
+            k += 1
+        if masked[k:k + 1] != ';':
+            raise ValueError('T10: labelled block %s is not a let initialiser ending in `;`' % label)
+        tl = block_tail(masked, lb)
+        if tl is None:
+            raise ValueError('T10: labelled block %s has no tail expression' % label)
+        body = text[lb + 1:close]
+        mbody = masked[lb + 1:close]
+        off = lb + 1
+        edits = []   # (start, end, replacement) relative to text
+        for bm in re.finditer(r"\bbreak\s+" + re.escape(label) + r"\b", mbody):
+            s0 = off + bm.start()
+            e0 = off + bm.end()
+            # expression up to the next `;` at depth 0
+            depth, j = 0, e0
+            while j < close:
+                c = masked[j]
+                if c in '([{':
+                    depth += 1
+                elif c in ')]}':
+                    if depth == 0:
+                        break
+                    depth -= 1
+                elif c == ';' and depth == 0:
+                    break
+                j += 1
+            expr = text[e0:j].strip()
+            if not expr:
+                raise ValueError('T10: `break %s` without a value' % label)
+            endpos = j + 1 if masked[j:j + 1] == ';' else j
+            edits.append((s0, endpos, '{ %s = %s; break %s; }' % (var, expr, label)))
+        a, b = tl
+        edits.append((a, b, '%s = %s;\nbreak %s;' % (var, text[a:b], label)))
+        edits.sort()
+        out, last = [], lb + 1
+        for s0, e0, rep in edits:
+            out.append(text[last:s0])
+            out.append(rep)
+            last = e0
+        out.append(text[last:close])
+        newbody = ''.join(out)
+        decl = 'let %s%s%s;' % (mutkw, var, (': ' + ty.strip()) if ty else '')
+        repl = '%s\n%s: loop /*vx:T10 was a labelled block*/\n    decreases 0int\n{%s}' % (decl, label, newbody)
+        text = text[:m.start()] + repl + text[k + 1:]
+        done.append(label + ' -> ' + var)
+    return text, done
+
+
 def module_span(text, modpath):
     """(lo, hi) of the body of nested module a::b::c in text"""
     masked = mask(text)
@@ -465,6 +534,18 @@ def inline_crate(repo, arg, subs, unit):
                 from splice import LostAnchor
                 raise LostAnchor('assert_eq_to_panic: no assert_eq! found')
             t = dict(rule='T14', what='assert_eq!(a, b, msg) -> if !(a == b) { panic!(msg) }', count=c, item=rec['item'])
+            rec['transformations'].append(t)
+            unit.transforms.append(t)
+        elif w[0] == 'labelled_blocks':
+            try:
+                text, done = rewrite_labelled_blocks(text)
+            except ValueError as e:
+                from splice import LostAnchor
+                raise LostAnchor(str(e))
+            if not done:
+                from splice import LostAnchor
+                raise LostAnchor('labelled_blocks: no `let v = \'label: { .. }` found')
+            t = dict(rule='T10', what="labelled block with `break 'l value` -> one-iteration labelled loop with deferred initialisation", blocks=done, item=rec['item'])
             rec['transformations'].append(t)
             unit.transforms.append(t)
         elif w[0] == 'format_concat':
